@@ -29,7 +29,10 @@ WRITTEN in param/parameterized.py:
     stored, `_update_ref` cancels `p`'s registered task and links `p` — to a reference no task
     belongs to; `_sync_refs` (run by `bump`, a change of the FIRST source) must step over it
     (`if not any(dep.owner is e.obj and dep.name == e.name …) and not is_async: continue`) and go on to
-    the asynchronous references behind it in the `refs` dict.
+    the asynchronous references behind it in the `refs` dict;
+  * **a synchronous reference that yields no value yet** (`assignSkip p`: its function raises
+    `param.Skip`): nothing is stored and no event is sent, but the assignment still supersedes what was
+    there — `_update_ref` cancels `p`'s registered task and replaces the link.
 
 Every function below is the function of the same name in Model.lean with the write replaced by
 `writeH` (write, then the hook) and the still-current check made on the reference id of the task
@@ -228,6 +231,7 @@ inductive EventH
   | trigC                                        -- `obj.param.trigger('c')`: runs the watcher of `Env.thook`
   | trigP (p : Nat)                              -- `obj.param.trigger(p)` on a (possibly linked) parameter
   | assignSync (p : Nat) (y : Int)               -- `obj.p = other.param.x` (a synchronous reference; `other.x == y`)
+  | assignSkip (p : Nat)                         -- `obj.p = param.bind(f, other.param.x)`, `f` raising `param.Skip`
   deriving Repr, DecidableEq
 
 /-- `async_executor(partial(_async_ref, pname, new_awaitable, ref))` from `_sync_refs` -/
@@ -289,6 +293,14 @@ def applyEventH (c : Cfg) (e : Env) (sh : StH) : EventH → StH
   -- and triggering a linked parameter re-assigns its current value — a plain value: the link is dropped
   | .trigP p => { sh with core := assignPlainH e sh.core p (sh.core.vals p) }
   -- `bumpH` steps over the parameter: `spawnRef` finds no task named `syncRef`
+  -- src: `_resolve_ref` returns `(ref, deps, Undefined, False)`; `__set__`: `if is_async or val is Undefined:
+  -- if relink is not None and not is_async: relink(); return` — no value, no event, but `_update_ref` cancels the
+  -- registered task and installs the link; the parameter keeps the value it holds
+  | .assignSkip p =>
+    let keys := sh.keys
+    let s1 := updateRef sh.core p syncRef
+    { sh with core := { s1 with last := upd s1.last p (.plain (s1.vals p)) },
+              order := if keys.contains p then keys else keys ++ [p] }
   | .assignSync p y =>
     let keys := sh.keys
     { sh with core := assignSyncH e sh.core p y,
